@@ -117,6 +117,25 @@ MagShr(m, k) == LET drop == k \div LB
                 IN StripM(MagShrSmall(rest, k % LB, Len(rest), 0))
 BigShrDef(x, k) == LET mm == MagShr(Mag(x), k) IN IF mm = <<>> THEN BigZero ELSE <<Sgn(x), mm>>
 
+\* number of bits of |x| (0 for zero)
+RECURSIVE BitsOfLimb(_)
+BitsOfLimb(d) == IF d = 0 THEN 0 ELSE 1 + BitsOfLimb(d \div 2)
+BigBits(x) == IF Sgn(x) = 0 THEN 0
+              ELSE LB * (Len(Mag(x)) - 1) + BitsOfLimb(Mag(x)[Len(Mag(x))])
+
+\* floor(x / y) for x >= 0, y > 0: binary long division on the bits of x
+RECURSIVE DivBits(_, _, _, _, _)
+\* process bit i (from the top) of x: rem = 2*rem + bit ; if rem >= y then rem -= y, quotient bit 1
+BitAt(x, i) == LET limb == Mag(x)[(i \div LB) + 1] IN (limb \div Pow2(i % LB)) % 2        \* i = 0 is the lsb
+DivBits(x, y, i, q, rem) ==
+    IF i < 0 THEN q
+    ELSE LET r2 == BigAddDef(BigShlDef(rem, 1), BigOfInt(BitAt(x, i)))
+             ge == BigCmpDef(r2, y) >= 0
+         IN DivBits(x, y, i - 1,
+                    BigAddDef(BigShlDef(q, 1), BigOfInt(IF ge THEN 1 ELSE 0)),
+                    IF ge THEN BigSubDef(r2, y) ELSE r2)
+BigDivFloorDef(x, y) == IF Sgn(x) = 0 THEN BigZero ELSE DivBits(x, y, BigBits(x) - 1, BigZero, BigZero)
+
 \* accelerated entry points (Java overrides replace these; the definitions are the meaning)
 BigAdd(x, y) == BigAddDef(x, y)
 BigSub(x, y) == BigSubDef(x, y)
@@ -124,6 +143,7 @@ BigMul(x, y) == BigMulDef(x, y)
 BigCmp(x, y) == BigCmpDef(x, y)
 BigShl(x, k) == BigShlDef(x, k)
 BigShr(x, k) == BigShrDef(x, k)
+BigDivFloor(x, y) == BigDivFloorDef(x, y)
 
 BigLt(x, y) == BigCmp(x, y) < 0
 BigLe(x, y) == BigCmp(x, y) <= 0
@@ -131,11 +151,6 @@ BigSq(x)    == BigMul(x, x)
 BigMulInt(x, n) == BigMul(x, BigOfInt(n))
 BigPow2(k)  == BigShl(BigOfInt(1), k)
 
-\* number of bits of |x| (0 for zero)
-RECURSIVE BitsOfLimb(_)
-BitsOfLimb(d) == IF d = 0 THEN 0 ELSE 1 + BitsOfLimb(d \div 2)
-BigBits(x) == IF Sgn(x) = 0 THEN 0
-              ELSE LB * (Len(Mag(x)) - 1) + BitsOfLimb(Mag(x)[Len(Mag(x))])
 
 \* ---------------------------------------------------------------- dyadics
 Dy(b, e) == <<b, e>>
